@@ -27,8 +27,8 @@ func init() {
 
 // (HEAD, index, worktree) kinds per path, alphabet of C27 (t = type swap).
 var (
-	c28StatesA = []string{"---", "111", "112", "110", "--1", "-11", "122", "1--", "11x", "11l", "11t", "-1-", "121"}
-	c28StatesB = []string{"---", "111", "112", "--1", "110", "-11", "11t"}
+	c28StatesA = []string{"---", "111", "112", "11-", "--1", "-11", "122", "1--", "11x", "11l", "11t", "-1-", "121"}
+	c28StatesB = []string{"---", "111", "112", "--1", "11-", "-11", "11t"}
 	c28OpNames = []string{"none", "Add(a)", "Add(d)", "Add(u)", "AddAll", "AddGlob(*)", "Remove(a)", "Remove(d)", "Move(a,m)", "Move(d/b,d/m)",
 		"Clean", "Clean(Dir)", "Commit"}
 )
@@ -277,6 +277,7 @@ func (e *c28Env) run(v []int) (sig, class string) {
 	defer repo.Close()
 	var outcome []string
 	last := 0
+	lastGoErr, lastGitOK := "", true
 	var extra []string
 	for _, op := range v[2:] {
 		if op == 0 {
@@ -289,6 +290,10 @@ func (e *c28Env) run(v []int) (sig, class string) {
 		}
 		r := c28GitOp(gB, rootB, op)
 		outcome = append(outcome, fmt.Sprintf("%s:%v/%v", c28OpNames[op], err == nil, r.OK()))
+		lastGoErr, lastGitOK = "", r.OK()
+		if err != nil {
+			lastGoErr = strings.ReplaceAll(strings.ReplaceAll(err.Error(), rootA, "<root>"), ":", "")
+		}
 		if op == 12 && err == nil { // the commit's tree is what git write-tree makes of go-git's index
 			wt := gA.MustRun("write-tree").S()
 			ct := gA.MustRun("log", "-1", "--format=%T", "HEAD").S()
@@ -297,11 +302,42 @@ func (e *c28Env) run(v []int) (sig, class string) {
 			}
 		}
 	}
-	items := c28Diff(c28OpNames[last], c28Observe(gB, rootB), c28Observe(gA, rootA))
+	oB, oA := c28Observe(gB, rootB), c28Observe(gA, rootA)
+	tolerated := false
+	if last == 10 || last == 11 {
+		// git clean never touches files below a directory whose name is still an
+		// index entry (file replaced by a directory) although status lists them as
+		// untracked: that quirk is not demanded from go-git
+		for _, o := range []map[string]string{oB, oA} {
+			for k := range o {
+				if !strings.HasPrefix(k, "worktree ") {
+					continue
+				}
+				p := strings.TrimPrefix(k, "worktree ")
+				for d := filepath.Dir(p); d != "." && d != "/"; d = filepath.Dir(d) {
+					if _, ok := oB["index "+d+" stage0"]; ok {
+						if oA[k] != oB[k] {
+							tolerated = true
+						}
+						delete(o, k)
+					}
+				}
+			}
+		}
+	}
+	items := c28Diff(c28OpNames[last], oB, oA)
 	items = append(extra, items...)
 	class = strings.Join(outcome, ",")
 	if len(items) == 0 {
+		if tolerated { // the copies differ only by the tolerated quirk: do not extend this prefix
+			return "", "tolerated-divergence"
+		}
 		return "", class
+	}
+	_ = lastGitOK
+	if lastGoErr != "" {
+		// go-git gave up where git did the work: one disagreement, named by the error
+		return "s:" + c28OpNames[last] + " go-git-fails " + lastGoErr, class
 	}
 	return strings.Join(items, ";"), class
 }
@@ -320,6 +356,11 @@ func runC28(c *fw.Ctx) {
 	c.SetRule("initial states = (HEAD,index,worktree) triples for a (13) x d/b (quick 4, thorough 7) built like C27 plus fixed untracked/ignored extras; all op sequences up to the depth over 12 operations, breadth first: a sequence is extended only if its prefix agreed; go-git runs the sequence on copy A, the equivalent git commands on copy B (AddGlob(*) = git add of the shell expansion; Remove = git rm -r -f; Clean = git clean -f [-d]; Commit with identical identity/date/message); compared after the last op: git ls-files -s of both, all remaining files, HEAD target, HEAD commit tree and parents, and for Commit tree == git write-tree of A's index; non-trivial = every executed sequence; distinct counts (per-op success pattern of both sides)")
 	c.Assume("git 2.39.5 commands listed in the rule are 'the equivalent git commands'; whether an op returned an error is not compared, only the resulting states")
 
+	if v := hDevVec(); v != nil {
+		sig, class := e.run(v)
+		fmt.Printf("case %s\n outcomes(go-git ok/git ok) %s\n disagreement %s\n", c28Render(v), class, sig)
+		return
+	}
 	var fails hFailures
 	var mu sync.Mutex
 	diverged := map[string]bool{}
@@ -342,7 +383,8 @@ func runC28(c *fw.Ctx) {
 			}
 		}
 		base := ord
-		c.ParDo(len(cases), 0, func(i int) {
+		c.ParDo(len(cases), 0, func(k int) {
+			i := hSpread(k, len(cases))
 			v := cases[i]
 			sig, class := e.run(v)
 			c.Eval()
@@ -350,9 +392,16 @@ func runC28(c *fw.Ctx) {
 			if i%401 == 0 {
 				c.Sample(map[string]any{"case": c28Render(v), "outcomes(go-git/git)": class, "disagreement": sig})
 			}
+			if class == "tolerated-divergence" {
+				mu.Lock()
+				diverged[prefixKey(v)] = true
+				mu.Unlock()
+			}
 			if sig != "" {
 				pad := append(append([]int{}, v...), make([]int, 2+depth-len(v))...)
-				fails.add(base+i, pad, sig)
+				for _, it := range strings.Split(sig, ";") {
+					fails.addHint(base+i, pad, sig, c28ClassOf(v, it))
+				}
 				mu.Lock()
 				diverged[prefixKey(v)] = true
 				mu.Unlock()
@@ -362,14 +411,51 @@ func runC28(c *fw.Ctx) {
 		c.Bound(fmt.Sprintf("sequences_depth_%d", d), len(cases))
 		level = cases
 	}
-	// one representative per first disagreement item
-	fails.mu.Lock()
-	for i := range fails.fails {
-		fails.fails[i].sig = strings.SplitN(fails.fails[i].sig, ";", 2)[0]
+	hReportClasses(c, &fails, c28Render)
+}
+
+var c28Family = []string{"none", "Add", "Add", "Add", "AddAll", "AddGlob", "Remove", "Remove", "Move", "Move", "Clean", "Clean(Dir)", "Commit"}
+
+// c28ClassOf names a disagreement by the op families of the sequence, the
+// aspect (index / worktree / HEAD) and the relation between git's and go-git's
+// value; paths and blob names are left out so that one defect has one key.
+func c28ClassOf(v []int, item string) string {
+	var fam []string
+	for _, o := range v[2:] {
+		if o != 0 {
+			fam = append(fam, c28Family[o])
+		}
 	}
-	fails.mu.Unlock()
-	fails.report(c, func(v []int) string {
-		s, _ := e.run(v)
-		return s
-	}, c28Render)
+	name := fam[len(fam)-1]
+	if len(fam) > 1 {
+		name = "... -> " + name
+	}
+	if i := strings.Index(item, " go-git-fails "); i >= 0 {
+		return name + ": go-git fails (" + item[i+len(" go-git-fails "):] + ") where git changes the state"
+	}
+	body := item[strings.Index(item, ":")+1:] // "<op> <aspect> <path...> <want>/<got>"
+	f := strings.Fields(body)
+	aspect, rel := "?", "differs"
+	if len(f) >= 3 {
+		aspect = f[1]
+		wg := strings.SplitN(f[len(f)-1], "/", 2)
+		if aspect == "HEAD" {
+			aspect = "HEAD " + f[2]
+		}
+		if len(wg) == 2 {
+			switch {
+			case wg[0] == "absent":
+				rel = "extra in go-git"
+			case wg[1] == "absent":
+				rel = "missing in go-git"
+			case strings.SplitN(wg[0], "-", 2)[0] != strings.SplitN(wg[1], "-", 2)[0]:
+				rel = "mode/type differs"
+			default:
+				rel = "content differs"
+			}
+		}
+	}
+	// depth-1 failures are named by the op alone; deeper ones by "... -> last op"
+	// (the prefix agreed with git, so the last op is where the states part)
+	return name + ": " + aspect + " " + rel
 }
